@@ -241,6 +241,22 @@ def check(tier, seed):
             n += 2
             if a["outcome"] != "result" or b["outcome"] != "result" or H.plain(a["result"].data) != H.plain(b["result"].data):
                 run.violation("introspection:disable-switch-leaves-ordinary-fields-alone", "ordinary fields differ with disable_introspection=True", {"config": cfg, "query": q}, True)
+    # a request that mixes ordinary fields with introspection: with the switch on, the ordinary fields are answered as if the meta fields were not there
+    for cfg in ("blocking-executor", "executor-blocking"):
+        mixed = "{ count s: __schema { types { name } } me { name __typename } __type(name: \"Query\") { name } }"
+        plainq = "{ count me { name } }"
+        a = H.run_request(H.make_schema(), plainq, {}, {}, cfg)
+        b = H.run_request(H.make_schema(), mixed, {}, {}, cfg, disable_introspection=True)
+        n += 2
+        ok = a["outcome"] == "result" and b["outcome"] == "result" and isinstance(b["result"].data, dict)
+        if ok:
+            bd = b["result"].data
+            ok = bd.get("count") == a["result"].data.get("count") and (bd.get("me") or {}).get("name") == a["result"].data["me"]["name"] \
+                and bd.get("s") is None and bd.get("__type") is None
+        if not ok:
+            run.violation("introspection:disable-switch-leaves-ordinary-fields-alone", "with disable_introspection=True a request mixing ordinary fields and introspection "
+                          "does not answer the ordinary fields (or answers the introspection ones): %s" % (b["result"].response() if b.get("result") else b.get("exc"),),
+                          {"config": cfg, "query": mixed}, True)
     if n == 0:
         raise MachineryDefect("nothing introspected")
     run.cov["evaluations"] = n
